@@ -18,6 +18,8 @@ import (
 	"strings"
 	"testing"
 
+	"gonum.org/v1/gonum/graph/topo"
+
 	"go.opentelemetry.io/collector/component"
 	"go.opentelemetry.io/collector/component/componentstatus"
 	"go.opentelemetry.io/collector/component/componenttest"
@@ -573,6 +575,8 @@ func TestVerif(t *testing.T) {
 		t.Skip("not driven")
 	}
 	defer ctx.Finish()
+	// own the sorts' tie-breaking (randomised map iteration in the real code): canonical first candidate, see C10/service
+	topo.VerifPick = func(int) int { return 0 }
 	if ctx.ReplayRaw != nil {
 		var rf struct {
 			Replay gCase `json:"replay"`
